@@ -191,7 +191,33 @@ def write_case(nops, bufsizes):
                 max_paths=400000, wall_s=1200)
 
 
+def duplex_case(maxlen):
+    """a read/write wrapper over a stream that cannot seek (chan.makefile('r+')): writing does not disturb what was
+    read ahead from the inbound side, and reading does not disturb what is written"""
+    def fn(ctx):
+        n = ctx.choice("len(stream)", range(0, maxlen + 1))
+        stream = ctx.bytes("stream", n)
+        if ctx.symbolic and n:
+            for x in stream.items:
+                ctx.E.solver.add(z3.Or(x.t == 97, x.t == 10))
+        bufsize = ctx.choice("bufsize", [-1, 0, 2])
+        with ctx.patches(_patches(ctx)):
+            f = _mk(ctx, stream, frag=False)("r+b", bufsize)
+            first = ctx.choice("first-read", ["readline", "read1"])
+            r = f.readline() if first == "readline" else f.read(1)
+            want = _expected_line(stream, None) if first == "readline" else min(1, n)
+            ctx.prove(len(r) == want and r == stream[:want], "returned-data-is-the-next-bytes-of-the-stream")
+            f.write(b"W")
+            f.flush()
+            ctx.prove(f.out == b"W", "written-data-is-delivered")
+            rest = f.read()
+            ctx.prove(rest == stream[want:], "nothing-lost-or-reordered:final-read-returns-the-rest(after-a-write-in-between)")
+    return Case("read-write-read-on-a-non-seekable-stream", fn,
+                ["nothing-lost-or-reordered:final-read-returns-the-rest(after-a-write-in-between)", "written-data-is-delivered"],
+                {"stream": "0..%d bytes over {a, LF}" % maxlen, "bufsize": [-1, 0, 2]}, max_paths=100000)
+
+
 def cases(tier):
     if tier == "quick":
-        return [read_case(4, 2, [0, 2]), read_case(3, 3, [-1]), readlines_case(4), write_case(3, [0, 1, 3])]
-    return [read_case(6, 2, [0, 1, 2, 3]), read_case(4, 3, [0, 2, -1]), readlines_case(6), write_case(4, [0, 1, 2, 3, -1])]
+        return [read_case(4, 2, [0, 2]), read_case(3, 3, [-1]), readlines_case(4), write_case(3, [0, 1, 3]), duplex_case(4)]
+    return [read_case(6, 2, [0, 1, 2, 3]), read_case(4, 3, [0, 2, -1]), readlines_case(6), write_case(4, [0, 1, 2, 3, -1]), duplex_case(6)]
